@@ -190,6 +190,13 @@ def determinism_probe(check, known, seed, tier, n=2):
             rs.append((sched, r))
             ds.append((s1, r["digest"], r["viol"] and r["viol"]["oracle"], r["error"]))
         if ds[0] != ds[1]:
+            if rs[0][1]["viol"] and rs[1][1]["viol"] and not rs[0][1]["error"] and not rs[1][1]["error"]:
+                # both executions violate the property, but not alike (state outside the run survives in the library and
+                # changes which clause fails first): the first execution's violation is reported
+                sched, r = rs[0]
+                r["viol"]["msg"] = ("[the second of two identical executions in one process violates differently (%s): state outside the "
+                                    "run survives in the library] " % rs[1][1]["viol"]["oracle"]) + r["viol"]["msg"]
+                return None, (dict(sched), r)
             for k, (sched, r) in enumerate(rs):
                 if r["viol"] and not rs[1 - k][1]["viol"] and not r["error"]:
                     sched = dict(sched, repeat=k + 1)
